@@ -37,7 +37,7 @@ Lemma schedule_quiet_or_fserr c : forall nd, tree_quiet c nd = true -> forall ms
 Proof.
   induction nd as [n k sz d ff|n ch df IH] using node_ind2; intros Q ms p.
   - cbn [schedule forallb quiet_or_fserr is_fserr call_quiet orb]. cbn [tree_quiet] in Q.
-    destruct (ff_stat ff); [|rewrite andb_false_r; reflexivity]. cbn [andb] in Q. apply negb_true_iff, orb_false_iff in Q as [Q _].
+    destruct (ff_stat ff); [|rewrite !andb_false_r; reflexivity]. cbn [andb] in Q. apply negb_true_iff, orb_false_iff in Q as [_ Q].
     rewrite Q. reflexivity.
   - rewrite schedule_dir. cbn [forallb]. rewrite tree_quiet_dir in Q. apply andb_true_iff in Q as [QG QC].
     pose proof (dir_decision_quiet c ms p ch QG) as DD.
@@ -114,7 +114,7 @@ Proof.
     + split; [|discriminate]. intros [st H]. exfalso.
       destruct (exec_first_fserr c F NL NP _ init_state QS E) as [st' X].
       pose proof (walk_node_exec c t [DOT] init_state) as A. cbn [s_stack init_state] in A. rewrite X, H in A.
-      cbn [agrees] in A. destruct A as [[ms A]|[_ [ms A]]]; discriminate.
+      cbn [agrees] in A. destruct A as [ms A]; discriminate.
     + split; [reflexivity|]. intros _.
       pose proof (quiet_no_fserr c _ E QS) as QA.
       destruct (walk_node_quiet c [DOT] t init_state NL NP QA) as (st & W & _). exists st. exact W.
@@ -146,45 +146,38 @@ Definition outcome_event (e p : list N) (ff : ffault) : event :=
   if ff_open ff then EOpenErr e p else if ff_fstat ff then EFstatErr e p else EExtract e p.
 
 Lemma ext_events_required c p size ff : forall es checked e,
-  checked || size_ok c size = true -> In e es -> req c e p size ff = true ->
+  checked || size_ok c size = true -> checked || negb ((0 <? c_max_size c)%Z && ff_stat ff) = true ->
+  In e es -> req c e p size ff = true ->
   In (outcome_event e p ff) (ext_events c p size ff es checked).
 Proof.
   rewrite size_ok_alt.
-  induction es as [|e0 es IH]; intros checked e OK Hin R; [destruct Hin|].
+  induction es as [|e0 es IH]; intros checked e OK OK2 Hin R; [destruct Hin|].
   cbn [ext_events]. right.
-  assert (NS : (0 <? c_max_size c)%Z && negb checked && (c_max_size c <? size)%Z = false).
+  assert (NS : (0 <? c_max_size c)%Z && negb checked && (ff_stat ff || (c_max_size c <? size)%Z) = false).
   { destruct checked; cbn [orb negb andb] in *; [rewrite andb_false_r; reflexivity|].
-    apply negb_true_iff in OK. destruct (0 <? c_max_size c)%Z; cbn [andb] in *; [exact OK|reflexivity]. }
+    apply negb_true_iff in OK, OK2. destruct (0 <? c_max_size c)%Z; cbn [andb] in *; [rewrite OK, OK2; reflexivity|reflexivity]. }
   assert (OK' : forall b, ((0 <? c_max_size c)%Z || b) || negb ((0 <? c_max_size c)%Z && (c_max_size c <? size)%Z) = true).
+  { intros b. destruct (0 <? c_max_size c)%Z; cbn [orb andb negb]; [reflexivity|apply orb_true_r]. }
+  assert (OK2' : forall b, ((0 <? c_max_size c)%Z || b) || negb ((0 <? c_max_size c)%Z && ff_stat ff) = true).
   { intros b. destruct (0 <? c_max_size c)%Z; cbn [orb andb negb]; [reflexivity|apply orb_true_r]. }
   destruct Hin as [->|Hin].
   - rewrite R, NS. apply in_or_app. left. unfold outcome_event.
     destruct (ff_open ff); [left; reflexivity|]. destruct (ff_fstat ff); left; reflexivity.
   - destruct (req c e0 p size ff).
-    + rewrite NS. apply in_or_app. right. apply IH; [apply OK'|exact Hin|exact R].
+    + rewrite NS. apply in_or_app. right. apply IH; [apply OK'|apply OK2'|exact Hin|exact R].
     + apply IH; assumption.
 Qed.
 
-(* ------------------------------------------------------------------ refutation witnesses *)
-Definition c_lazy : cfg := with_limits base_cfg 0 10 false NoCancel.
-Definition t_lazy : node := Dc DOT [Ff nA Reg 1 0 false false true; Fc nB Reg 1 0].
-
-Lemma lazy_stat_refuted_lemma :
-  exists c t, c_fatal c = false /\ no_limits c = true /\ c_paths c = [] /\ wf_tree t = true /\
-    exists st, fs_result c t = WOk st (Abort AbSize) /\ fs_calls c t = [] /\ fs_calls c (erase_faults t) <> [].
-Proof.
-  exists c_lazy, t_lazy. repeat split; try reflexivity. eexists. split; [vm_compute; reflexivity|].
-  split; [reflexivity|]. vm_compute. discriminate.
-Qed.
-
+(* ------------------------------------------------------------------ refutation witness *)
 Definition c_gi_fault : cfg := with_gitignore base_cfg pat_a.
 Definition t_gi_fault : node := Dc DOT [Dc nB [Ff GI Reg 3 1 true false false; Fc nA Reg 1 0]; Fc nC Reg 1 0].
 
 Lemma unreadable_gitignore_refuted_lemma :
   exists c t, c_fatal c = false /\ no_limits c = true /\ c_paths c = [] /\ wf_tree t = true /\
-    exists st, fs_result c t = WPanic st PcSlice.
+    exists st, fs_result c t = WOk st (Abort AbGi) /\ fs_calls c t = [] /\ fs_calls c (erase_faults t) <> [].
 Proof.
-  exists c_gi_fault, t_gi_fault. repeat split; try reflexivity. eexists. vm_compute. reflexivity.
+  exists c_gi_fault, t_gi_fault. repeat split; try reflexivity. eexists. split; [vm_compute; reflexivity|].
+  split; [reflexivity|]. vm_compute. discriminate.
 Qed.
 
 (* ------------------------------------------------------------------ Scan's overall status *)
